@@ -102,6 +102,8 @@ static bool gen_c09(uint64_t seed, const std::string &tier, uint64_t i, Plan &p)
       std::string kind = q + 1 == n && r.chance(0.7) ? "accept" : r.pick(std::vector<std::string>{"refuse", "timeout", "accept"}); if (kind == "accept") any_accept = true; hosts.set(std::to_string(ip), Json::obj().set("kind", kind).set("delay", (long long)r.below(5))); }
     mx.set("r.example", mxl); zone.set("mx", mx).set("a", a); p.knobs.set("zone", zone).set("hosts", hosts);
     lab = "mx set of " + std::to_string(n) + (any_accept ? "" : " (none accepts)");
+    // ... and the table of unreachable hosts is already full of OTHER hosts (or short, or of odd length) when these time out
+    if (r.chance(0.4)) { p.knobs.set("tcpto_table", r.pick(std::vector<std::string>{"full", "full", "partial", "odd"})); lab += " tcpto " + p.knobs.gets("tcpto_table"); }
     // a destination that has been unreachable for a while: two or three earlier attempts, minutes apart, then the judged one
     if (!any_accept && r.chance(0.6)) { p.knobs.set("earlier_runs", (long long)r.range(1, 3)).set("earlier_gap_s", (long long)r.pick(std::vector<int64_t>{10, 130, 200, 1000, 5000})); lab += " after earlier attempts"; }
   } else if (net == 5) {   // resolver trouble
